@@ -216,3 +216,25 @@ class CentroidClassifier(BaseEstimator, ClassifierMixin):
 
     def predict(self, X):
         return self.classes_[np.argmax(self.predict_proba(X), axis=1)]
+
+
+class FakeTSNE(BaseEstimator, TransformerMixin):
+    """a cheap stand-in for sklearn.manifold.TSNE: only fit_transform, a `perplexity` hyper-parameter that must be
+    smaller than the number of samples (as TSNE demands) and that influences the embedding"""
+
+    def __init__(self, perplexity=30.0, n_components=1):
+        self.perplexity = perplexity
+        self.n_components = n_components
+
+    def fit_transform(self, X, y=None):
+        X = np.asarray(X, dtype=np.float64)
+        if self.perplexity >= X.shape[0]:
+            raise ValueError("perplexity must be less than n_samples")
+        Z = X - X.mean(axis=0)
+        cols = [Z[:, i % Z.shape[1]] * (1.0 + i) + Z[:, 0] * (self.perplexity / 8.0) for i in range(self.n_components)]
+        self.embedding_ = np.stack(cols, axis=1)
+        return self.embedding_
+
+    def fit(self, X, y=None):
+        self.fit_transform(X, y)
+        return self
